@@ -253,35 +253,30 @@ package gts
 
 //@ func (mod Head) Apply(head, tail int) (h int, t int)
 //@   prop C08
-//@   requires coord(head) && coord(tail) && coord(int(mod))
 //@   decreases ite(tail < head, 1, 0)
 //@   ensures head <= tail ==> h == head + int(mod) && t == h
 //@   ensures tail < head ==> h == head - int(mod) && t == h
 
 //@ func (mod Tail) Apply(head, tail int) (h int, t int)
 //@   prop C08
-//@   requires coord(head) && coord(tail) && coord(int(mod))
 //@   decreases ite(tail < head, 1, 0)
 //@   ensures head <= tail ==> h == tail + int(mod) && t == h
 //@   ensures tail < head ==> h == tail - int(mod) && t == h
 
 //@ func (mod HeadTail) Apply(head, tail int) (h int, t int)
 //@   prop C08
-//@   requires coord(head) && coord(tail) && coord(mod[0]) && coord(mod[1])
 //@   decreases ite(tail < head, 1, 0)
 //@   ensures head <= tail ==> h == head + mod[0] && t == max(h, tail + mod[1])
 //@   ensures tail < head ==> h == head - mod[0] && t == min(h, tail - mod[1])
 
 //@ func (mod HeadHead) Apply(head, tail int) (h int, t int)
 //@   prop C08
-//@   requires coord(head) && coord(tail) && coord(mod[0]) && coord(mod[1])
 //@   decreases ite(tail < head, 1, 0)
 //@   ensures head <= tail ==> h == head + mod[0] && t == max(h, head + mod[1])
 //@   ensures tail < head ==> h == head - mod[0] && t == min(h, head - mod[1])
 
 //@ func (mod TailTail) Apply(head, tail int) (h int, t int)
 //@   prop C08
-//@   requires coord(head) && coord(tail) && coord(mod[0]) && coord(mod[1])
 //@   decreases ite(tail < head, 1, 0)
 //@   ensures head <= tail ==> h == tail + mod[0] && t == max(h, tail + mod[1])
 //@   ensures tail < head ==> h == tail - mod[0] && t == min(h, tail - mod[1])
@@ -1017,3 +1012,81 @@ func lemmaSliceConcat(seq Sequence, c int) Sequence {
 //@   (is(l, Between) ==> 0 <= int(l.(Between)) && int(l.(Between)) <= length) &&
 //@   (is(l, Ranged) ==> 0 <= l.(Ranged).Start && l.(Ranged).Start < l.(Ranged).End && l.(Ranged).End <= length) &&
 //@   (is(l, Ambiguous) ==> 0 <= l.(Ambiguous).Start && l.(Ambiguous).Start < l.(Ambiguous).End && l.(Ambiguous).End <= length)
+
+// ---------------------------------------------------------------------------
+// region.go: Resize (C08).  A region made of segments is resized by walking the segments:
+// with pre(k) the total length of the first k segments, an offset v (counted from the 5'
+// end of the whole region) falls into the segment L with pre(L) < v <= pre(L+1), or into the
+// first / last segment when it lies before / beyond the region; the pieces in between are
+// kept whole.
+
+// Results of applying a modifier to one segment (h, t), on either strand.
+//@ spec func hhHead(h int, t int, p int, q int) int = ite(h <= t, h + p, h - p)
+//@ spec func hhTail(h int, t int, p int, q int) int = ite(h <= t, max(h + p, h + q), min(h - p, h - q))
+//@ spec func htHead(h int, t int, p int, q int) int = ite(h <= t, h + p, h - p)
+//@ spec func htTail(h int, t int, p int, q int) int = ite(h <= t, max(h + p, t + q), min(h - p, t - q))
+
+//@ func (s Segment) Resize(mod Modifier) (out Region)
+//@   prop C08
+//@   requires !isnil(mod)
+//@   ensures is(out, Segment)
+//@   ensures is(mod, Head) ==> out.(Segment)[0] == hhHead(s[0], s[1], int(mod.(Head)), int(mod.(Head))) && out.(Segment)[1] == out.(Segment)[0]
+//@   ensures is(mod, HeadHead) ==>
+//@      out.(Segment)[0] == hhHead(s[0], s[1], mod.(HeadHead)[0], mod.(HeadHead)[1]) && out.(Segment)[1] == hhTail(s[0], s[1], mod.(HeadHead)[0], mod.(HeadHead)[1])
+//@   ensures is(mod, HeadTail) ==>
+//@      out.(Segment)[0] == htHead(s[0], s[1], mod.(HeadTail)[0], mod.(HeadTail)[1]) && out.(Segment)[1] == htTail(s[0], s[1], mod.(HeadTail)[0], mod.(HeadTail)[1])
+//@   assigns nothing
+
+// slenOf(r): length of a segment held in a Region value.
+//@ spec func slenOf(r Region) int = abs(r.(Segment)[1] - r.(Segment)[0])
+
+//@ func (rr Regions) Len() (total int)
+//@   prop C08
+//@   requires forall k in 0..len(rr): is(rr[k], Segment) && coord(rr[k].(Segment)[0]) && coord(rr[k].(Segment)[1])
+//@   ghost in pre(k int) int
+//@   requires pre(0) == 0 && (forall k in 0..len(rr): pre(k+1) == pre(k) + slenOf(rr[k]))
+//@   ensures total == pre(len(rr))
+//@   assigns nothing
+//@   loop 1: invariant total == pre(idx1)
+//@   loop 1: decreases len(rr) - idx1
+
+// Offsets of the two ends, counted from the 5' end of the whole region of total length T.
+//@ spec func loOf(mod Modifier, T int) int =
+//@   ite(is(mod, Head), int(mod.(Head)), ite(is(mod, Tail), int(mod.(Tail)) + T, ite(is(mod, HeadHead), mod.(HeadHead)[0],
+//@   ite(is(mod, HeadTail), mod.(HeadTail)[0], mod.(TailTail)[0] + T))))
+//@ spec func hiOf(mod Modifier, T int) int =
+//@   ite(is(mod, Head), int(mod.(Head)), ite(is(mod, Tail), int(mod.(Tail)) + T, ite(is(mod, HeadHead), mod.(HeadHead)[1],
+//@   ite(is(mod, HeadTail), mod.(HeadTail)[1] + T, mod.(TailTail)[1] + T))))
+//@ spec func isMod(mod Modifier) bool = is(mod, Head) || is(mod, Tail) || is(mod, HeadHead) || is(mod, HeadTail) || is(mod, TailTail)
+
+//@ func (rr Regions) Resize(mod Modifier) (out Region)
+//@   prop C08
+//@   requires len(rr) >= 1 && len(rr) <= 1048576 && isMod(mod) && coord(2*loOf(mod, 0)) && coord(2*hiOf(mod, 0))
+//@   requires forall k in 0..len(rr): is(rr[k], Segment) && 0 <= rr[k].(Segment)[0] && rr[k].(Segment)[0] <= 1048576 && 0 <= rr[k].(Segment)[1] && rr[k].(Segment)[1] <= 1048576
+//@   ghost pre(k int) int
+//@   define pre(0) == 0 && (forall k in 0..len(rr): pre(k+1) == pre(k) + slenOf(rr[k]))
+//@   ghost L(z int) int
+//@   ghost R(z int) int
+//@   ghost_final L(z) := left
+//@   ghost_final R(z) := right
+//@   ensures range: 0 <= L(0) && L(0) < len(rr) && 0 <= R(0) && R(0) < len(rr)
+//@   ensures left_found: (L(0) == 0 || pre(L(0)) < loOf(mod, pre(len(rr)))) && (L(0) == len(rr) - 1 || loOf(mod, pre(len(rr))) <= pre(L(0) + 1))
+//@   ensures right_found: (R(0) == 0 || pre(R(0)) < hiOf(mod, pre(len(rr)))) && (R(0) == len(rr) - 1 || hiOf(mod, pre(len(rr))) <= pre(R(0) + 1))
+//@   ensures same: L(0) == R(0) ==> is(out, Segment) &&
+//@      out.(Segment)[0] == hhHead(rr[L(0)].(Segment)[0], rr[L(0)].(Segment)[1], loOf(mod, pre(len(rr))) - pre(L(0)), hiOf(mod, pre(len(rr))) - pre(L(0))) &&
+//@      out.(Segment)[1] == hhTail(rr[L(0)].(Segment)[0], rr[L(0)].(Segment)[1], loOf(mod, pre(len(rr))) - pre(L(0)), hiOf(mod, pre(len(rr))) - pre(L(0)))
+//@   ensures crossed: L(0) > R(0) ==> is(out, Segment) && out.(Segment)[1] == out.(Segment)[0] &&
+//@      out.(Segment)[0] == hhHead(rr[L(0)].(Segment)[0], rr[L(0)].(Segment)[1], loOf(mod, pre(len(rr))) - pre(L(0)), 0)
+//@   ensures span_shape: L(0) < R(0) ==> is(out, Regions) && len(out.(Regions)) == R(0) - L(0) + 1 && fresh(out.(Regions))
+//@   ensures span_first: L(0) < R(0) ==> is(out.(Regions)[0], Segment) &&
+//@      out.(Regions)[0].(Segment)[0] == htHead(rr[L(0)].(Segment)[0], rr[L(0)].(Segment)[1], loOf(mod, pre(len(rr))) - pre(L(0)), 0) &&
+//@      out.(Regions)[0].(Segment)[1] == htTail(rr[L(0)].(Segment)[0], rr[L(0)].(Segment)[1], loOf(mod, pre(len(rr))) - pre(L(0)), 0)
+//@   ensures span_last: L(0) < R(0) ==> is(out.(Regions)[R(0)-L(0)], Segment) &&
+//@      out.(Regions)[R(0)-L(0)].(Segment)[0] == hhHead(rr[R(0)].(Segment)[0], rr[R(0)].(Segment)[1], 0, hiOf(mod, pre(len(rr))) - pre(R(0))) &&
+//@      out.(Regions)[R(0)-L(0)].(Segment)[1] == hhTail(rr[R(0)].(Segment)[0], rr[R(0)].(Segment)[1], 0, hiOf(mod, pre(len(rr))) - pre(R(0)))
+//@   ensures span_middle: L(0) < R(0) ==> (forall k in 1..R(0)-L(0): out.(Regions)[k] == rr[L(0)+k])
+//@   assigns nothing
+//@   loop 1: invariant 0 <= k && k <= len(rr) - 1 && fresh(ret) && len(ret) == len(rr) && (forall j in 0..len(rr): ret[j] == rr[j])
+//@   loop 1: invariant 0 <= left && left <= k && lower == loOf(mod, pre(len(rr))) - pre(left) && (left > 0 ==> pre(left) < loOf(mod, pre(len(rr)))) && (left < k ==> lower <= slenOf(rr[left]))
+//@   loop 1: invariant 0 <= right && right <= k && upper == hiOf(mod, pre(len(rr))) - pre(right) && (right > 0 ==> pre(right) < hiOf(mod, pre(len(rr)))) && (right < k ==> upper <= slenOf(rr[right]))
+//@   loop 1: decreases len(rr) - k
